@@ -92,3 +92,50 @@ MANIFEST_TEXT = {
                 note="trusted: the harness's patch applier and template matcher; diff.go copied verbatim from the working tree at check time",
                 technique="bounded-exhaustive + random property-based testing with independent patch-applier / reference-matcher oracle"),
 }
+
+E2_ASSUME = [
+    "a call counts as blocked only with proof: two goroutine dumps one second apart show it in the same blocking state inside fsnotify; lateness without proof is inconclusive (exit 2), never a violation",
+    "the reader goroutine is parked deterministically by the plug protocol (Events buffer filled one event at a time, FIONREAD==0 observed)",
+]
+
+
+def e2(test, rule, quick, thorough, **kw):
+    d = dict(pkg="life", test=test, replay_test="TestReplay" + test[4:], level="exploration", rule=rule, assumptions=E2_ASSUME,
+             quick=dict(checks=quick, shards=1, cap_s=900), thorough=dict(checks=thorough, shards=16, cap_s=3300),
+             crash_is_violation=True, shrinktime="20s")
+    d.update(kw)
+    return d
+
+
+PROPS["C05"] = e2("TestC05", "cases drawn by rapid: setup tree, 1-5 watches on dirs/files, reader parked by the plug (80%), 0-15 pending fs ops incl. a sequence that invalidates "
+                  "a kernel watch before its notification is handled (70%), consumer behaviour in {none, events, errors, both, stop after j}, capacity in {default,0,1,8,4096}, "
+                  "then 1-6 control calls and 1-3 concurrent Close calls, each under a watchdog with goroutine-dump proof. non-trivial = at the first control call the reader is "
+                  "parked or FIONREAD>0; distinct = the full case text", 150, 600)
+MANIFEST_TEXT["C05"] = dict(engine="E2", level_text="Exploration of (pending state x consumer behaviour x control programme): every Add/Remove/WatchList/Close must return; a violation needs goroutine-dump proof of a call blocked inside fsnotify. The reader-parked class of schedules is reached deterministically; other interleavings are sampled.",
+                            note="trusted: runtime.Stack goroutine states; the plug protocol; watchdog 4 s (quick) / 10 s (thorough) for calls that take microseconds",
+                            technique="property-based testing (rapid) over generated pending states and call programmes, watchdog-with-proof oracle")
+
+PROPS["C06"] = e2("TestC06", "cases drawn by rapid: watches on dirs/files, 0-28 fs ops delivered or left pending (reader parked by the plug in 50%), consumer in {both, none, events, errors, stop after j}, "
+                  "capacity in {default,0,1,8,4096}, Close issued concurrently with 0-4 Add/Remove/WatchList/Close calls at GOMAXPROCS in {default,1,2,4,16}, then changes under fresh names. "
+                  "Oracle: every call returns (watchdog with proof); afterwards Add=ErrClosed, Remove=nil, WatchList=nil; both channels reach closed (failure needs: no reader goroutine left, or reader provably blocked); "
+                  "no event for a post-Close name; a panic kills the process and is reported with the journal. non-trivial = Close with the kernel queue non-empty, the reader parked, or concurrent calls; distinct = case text", 200, 800)
+MANIFEST_TEXT["C06"] = dict(engine="E2", level_text="Exploration of Close points (idle, mid-burst, reader parked in a send, concurrent with other calls) x consumer behaviours x capacities; closed-ness of both channels, inert API and silence for post-Close changes are checked on every case.",
+                            note="trusted: goroutine dumps for the 'reader gone, channel open' verdict; fresh post-Close names make 'no event after Close' decidable",
+                            technique="property-based testing (rapid) over generated histories and Close points with protocol-invariant oracle")
+PROPS["C13"] = e2("TestC13", "cases as C06 (history before Close, Close racing other calls), with NewWatcher made to fail first by an injected EMFILE (RLIMIT_NOFILE lowered in-process) in 25% of cases; "
+                  "plus a soak of 300 (quick) / 3000 (thorough) create-use-close cycles with every 7th NewWatcher failing. Oracle: the set of inotify descriptors in /proc/self/fd and the number of goroutines with "
+                  "fsnotify frames return to the baseline taken before the case (bounded re-probing; failure needs a blocked goroutine or no goroutine left to release the descriptor); a failed NewWatcher returns nil and leaves both unchanged. "
+                  "non-trivial = as C06 or with the injected fault; distinct = case text", 200, 800, level="fault_enumeration",
+                  parts=[dict(pkg="life", test="TestC13", replay_test="TestReplayC13"), dict(pkg="life", test="TestC13Soak", replay_test="TestReplayC13", single=True)])
+MANIFEST_TEXT["C13"] = dict(engine="E2", level_text="Fault enumeration: the fault (inotify_init1 failing with EMFILE) is injected at chosen NewWatcher calls, and the point of Close is enumerated over generated histories; descriptor and goroutine counts are compared with a baseline after every case and after thousands of cycles.",
+                            note="trusted: /proc/self/fd readlink = anon_inode:inotify identifies inotify descriptors; runtime.Stack lists all goroutines; RLIMIT_NOFILE makes inotify_init1 fail with EMFILE (the per-user instance limit itself is machine-global and not touched)",
+                            technique="property-based testing with injected fault (rlimit) and resource-baseline oracle")
+PROPS["C07"] = e2("TestC07", "programmes drawn by rapid: 2-4 goroutines x 1-4 calls from {Add, Remove, WatchList, Close} over overlapping spellings (d0, ld0 -> d0, ./d0, d0/, d1, d0/f, ld0/f, u, missing), "
+                  "two churn goroutines creating/removing entries inside the watched directories, GOMAXPROCS in {1,2,4,16}, consumer in {both, none, stop after j}; built with -race. "
+                  "Oracle: race detector silent, no panic, no provable deadlock, and the recorded call/return history is linearizable (porcupine) w.r.t. the sequential watch-set specification; "
+                  "stress part: watched paths themselves created/deleted/renamed meanwhile, WatchList never shows a duplicate or a never-added path, results within the allowed classes. "
+                  "non-trivial = >=2 calls of different goroutines overlapped in real time on the same file or with Close; distinct = case text", 300, 1500, race=True, timeout="50m",
+                  parts=[dict(pkg="life", test="TestC07", replay_test="TestReplayC07"), dict(pkg="life", test="TestC07Stress", replay_test="TestReplayC07", single=True)])
+MANIFEST_TEXT["C07"] = dict(engine="E2", level_text="Exploration: schedules are sampled (Go scheduler, varied GOMAXPROCS, lock contention from event traffic), not enumerated; each sampled history is checked exhaustively for linearizability and the race detector watches every run.",
+                            note="trusted: Go race detector; porcupine v1.3.0 linearizability checker; invoke/return stamps from one atomic counter; the filesystem objects named by the calls are static during the concurrent phase",
+                            technique="property-based testing of concurrent programmes under -race with linearizability checking (porcupine) against the sequential model")
